@@ -174,3 +174,27 @@ async fn probe_f8_erased_version_returns() {
 	println!("PROBE_F8E get_at(920) before={:?} after_flush={:?} after_compact={:?}", before, mid, after);
 	assert_eq!(before, after);
 }
+
+#[tokio::test]
+async fn probe_f10_l1_key_sorted_seq_unsorted_reopen() {
+	let d = TempDir::new("probe").unwrap();
+	{
+		let (tree, opts) = TreeBuilder::new().with_path(d.path().to_path_buf()).with_level_count(3).build_with_options().unwrap();
+		for k in [b"m", b"n", b"o"] { let mut t = tree.begin().unwrap(); t.set(k, b"v1").unwrap(); t.commit().await.unwrap(); }
+		tree.flush().unwrap();
+		tree.compact(strat(&opts)).unwrap();
+		for k in [b"a", b"b", b"c"] { let mut t = tree.begin().unwrap(); t.set(k, b"v2").unwrap(); t.commit().await.unwrap(); }
+		tree.flush().unwrap();
+		tree.compact(strat(&opts)).unwrap();
+		{
+			let m = tree.core.inner.level_manifest.read().unwrap();
+			for (i, l) in m.levels.get_levels().iter().enumerate() {
+				println!("PROBE_F10 level {} tables {:?}", i, l.tables.iter().map(|t| (t.id, t.meta.smallest_seq_num, t.meta.largest_seq_num)).collect::<Vec<_>>());
+			}
+		}
+		tree.close().await.unwrap();
+	}
+	let r = TreeBuilder::new().with_path(d.path().to_path_buf()).with_level_count(3).build();
+	println!("PROBE_F10 reopen: {:?}", r.as_ref().map(|_| "ok").map_err(|e| e.to_string()));
+	assert!(r.is_ok());
+}
